@@ -52,7 +52,7 @@ func zeroMask(b []byte) []byte {
 func TestC11(t *testing.T) {
 	r := NewReporter(t)
 	defer r.Done()
-	r.Rule("full product of directory-name case x nesting x extension case x key placement {none, adjacent, REDKEY, both (different keys), malformed adjacent, malformed REDKEY} x watermark {none, encrypted, decrypted} x file length around 0xF70..0x1070 x {read, write}; every layout read sequentially and positionally across the watermark borders, and again with every underlying Read capped at {1000, 7} (thorough: 2047, 1000, 16, 7, 1) bytes; key files changed between opens on one serving filesystem (all ordered pairs of placements); two connections opening images with different embedded keys / a key file / a plain file concurrently: all schedules with <= 2 preemptions over connection and leaf filesystem operations, each stream equal to the stream of the script run alone; oracle = decision table written from the statement selecting one of {identity, redump decrypt, 3k3y decrypt+mask, mask}; distinct by layout")
+	r.Rule("full product of directory-name case x nesting x extension case x key placement {none, adjacent, REDKEY, both (different keys), malformed adjacent, malformed REDKEY} x watermark {none, encrypted, decrypted} x file length around 0xF70..0x1070 x {read, write}; every layout read sequentially and positionally across the watermark borders, and again with every underlying Read capped at {1000, 7} (thorough: 2047, 1000, 16, 7, 1) bytes; key files changed between opens on one serving filesystem (all ordered pairs of placements); two connections opening images with different embedded keys / a key file / a plain file concurrently: all schedules with <= 2 (thorough 3) preemptions over connection and leaf filesystem operations, each stream equal to the stream of the script run alone; oracle = decision table written from the statement selecting one of {identity, redump decrypt, 3k3y decrypt+mask, mask}; distinct by layout")
 	root := filepath.Join(scratchBase(), sprintf("verifh-c11-%d", os.Getpid()), "root")
 	defer os.RemoveAll(filepath.Dir(root))
 	tables := [][]uint32{{0, 2, 4, 5}, {0, 1, 4, 5}} // sector 3 encrypted / sectors 2-3 encrypted (tail of the 3k3y area is ciphertext on disk)
@@ -130,6 +130,9 @@ func TestC11(t *testing.T) {
 				{mkReq(opOpenFile, "/PS3ISO/r.iso"), rdcReq(3*2048-1, 2050), mkReq(opOpenFile, "/k3/e0.iso"), rdReq(3*2048, 100)}}},
 		}
 		bound := 2
+		if r.Thorough() {
+			bound = 3
+		}
 		r.Extra("preemption_bound", bound)
 		for _, sc := range scs {
 			if !c12Explore(t, r, w.Root, sc, bound, "C11") {
